@@ -120,13 +120,20 @@ def factory_cases(rng, mt, tier):
                     lay = F.layout_for(e, hdrpay)
                     pay = bytes(hdrpay) + F.rand_payload_for(rng, lay[len(e['hdr']):])
 
-                def run(a=first['cls'], b=e['cls'], pay=pay):
+                other = bytes((x ^ 0xFF) for x in pay) if e['kind'] != 'counted' else bytes(pay[:len(e['hdr']) and sum(F.tok_width(t) for _, t in e['hdr'])]) + bytes((x ^ 0x5A) for x in pay[sum(F.tok_width(t) for _, t in e['hdr']):])
+
+                def run(a=first['cls'], b=e['cls'], pay=pay, other=other):
                     from ubxlib.cid import UbxCID
                     FrameFactory.destroy()
                     ff = FrameFactory.getInstance()
                     ff.register(a)
                     ff.register(b)
                     fr = ff.build_with_data(UbxCID(*cid), bytearray(pay))
+                    # a second frame of the same type is decoded through the factory before the first one is read
+                    try:
+                        ff.build_with_data(UbxCID(*cid), bytearray(other))
+                    except Exception:
+                        pass
                     FrameFactory.destroy()
                     return ('' if type(fr) is b else f'decoded-as-{type(fr).__name__} ') + F.render_fields(fr)
                 cases.append(Case('decode-via-factory', f'dec {e["kindspec"]} {C.hexs(pay)}', C.guarded(run),
